@@ -6,5 +6,6 @@ set -e
 cd "$(dirname "$0")"
 export GOFLAGS=-mod=mod GOPROXY=off GOSUMDB=off GOTOOLCHAIN=local
 ./check build >/dev/null
+./check build race >/dev/null
 ./check selftest >/dev/null
 echo "setup ok"
